@@ -191,6 +191,11 @@ inline const std::unordered_map<std::string_view, typename ConstitutiveModel::Ty
       {"compressible_newtonian_fluid",   ConstitutiveModel::Type::CompressibleNewtonianFluid  },
 };
 
+inline std::ostream& operator<<(std::ostream& stream, const ConstitutiveModel::Type type) {
+  stream << Abbreviation(type);
+  return stream;
+}
+
 inline std::ostream& operator<<(std::ostream& stream, const ConstitutiveModel& model) {
   stream << model.Print();
   return stream;
